@@ -89,6 +89,9 @@ func (c05) Gen(r *rand.Rand, tier string, idx int) *core.Plan {
 		p.Faults = append(p.Faults, rt.Fault{Task: 0, Op: "revocation.validate", Nth: r.IntN(int(w["rounds"])), Kind: "EIO"})
 	}
 	c05RealGen(r, p, idx)
+	// the caller hands over the context-aware validator AND the deprecated client (which finds nothing wrong): the
+	// statement's subject is the validator
+	w["both"] = int64(r.IntN(4) / 3)
 	return p
 }
 
@@ -174,7 +177,12 @@ func (l c05) Exec(env *core.Env) *core.Result {
 		store := world.NewScriptedStore()
 		store.Put(storeType, "s", chain.Root().Cert)
 		// the revocation action is an override on any of the three base levels
-		v, err := buildVerifier(vcfg{level: vLevels[w["base"]%3], override: map[string]string{"revocation": action}, stores: []string{storeType + ":s"}, store: store, validator: val, legacy: w["legacy"] == 1, mgr: mgr, ctor: w["ctor"]})
+		cfg := vcfg{level: vLevels[w["base"]%3], override: map[string]string{"revocation": action}, stores: []string{storeType + ":s"}, store: store, validator: val, legacy: w["legacy"] == 1, mgr: mgr, ctor: w["ctor"]}
+		if w["both"] == 1 && w["legacy"] != 1 {
+			cfg.realLegacy = world.LegacyClient{V: &world.ScriptedValidator{}} // all OK, whatever the chain
+			res.Probe("validator_and_deprecated_client_both_supplied")
+		}
+		v, err := buildVerifier(cfg)
 		if err != nil {
 			res.Violate("HARNESS/verifier", "", "%v", err)
 			return
